@@ -42,8 +42,9 @@ enum Stack { kPool, kStrandPool, kStrand2Pool, kManual, kStackN };
 const char* const kStackName[] = {"pool", "strand/pool", "strand/strand/pool", "manual(drained by a fiber)"};
 enum StopKind { kNoStopUntilDone, kStop, kSoftStop, kHardStop, kStopN };
 const char* const kStopName[] = {"stop after the chain finished", "Stop", "SoftStop", "HardStop"};
-enum Src { kContract, kRun, kSchedule, kSrcN };
-const char* const kSrcName[] = {"contract set by a producer fiber", "Run(e)", "Schedule(e)+ToFuture"};
+enum Src { kContract, kRun, kSchedule, kRunShared, kSrcN };
+const char* const kSrcName[] = {"contract set by a producer fiber", "Run(e)", "Schedule(e)+ToFuture",
+                                "RunShared(e): first step and a Subscribe(f) attached to the SharedFutureOn"};
 
 struct StepRec {
   int mode, sig;  // mode: 0 ThenInline, 1 Then(e), 2 Then() inherited; sig: 0 value, 1 Result
@@ -57,6 +58,9 @@ struct PCtx {
   long clock = 0;
   const char* err = nullptr;
   bool stop_issued = false;
+  int subscribed_calls = 0;  // Subscribe(f) attached to a RunShared source
+  std::vector<std::uint64_t> ran_on;  // per step: fiber that ran the callback
+  std::uint64_t main_id = 0, producer_id = 0;
   void Err(const char* e) {
     if (err == nullptr) {
       err = e;
@@ -73,6 +77,7 @@ auto AttachStep(H&& h, yaclib::IExecutor& e, PCtx& cx, int i, StepRec st) {
     ++cp->calls[static_cast<std::size_t>(i)];
     cp->saw[static_cast<std::size_t>(i)] = 0;
     cp->at[static_cast<std::size_t>(i)] = ++cp->clock;
+    cp->ran_on[static_cast<std::size_t>(i)] = yaclib_std::this_thread::get_id();
     return Pay{v.Read() + 1};
   };
   auto on_result = [cp, i, g](R&& r) {
@@ -80,6 +85,7 @@ auto AttachStep(H&& h, yaclib::IExecutor& e, PCtx& cx, int i, StepRec st) {
     ++cp->calls[static_cast<std::size_t>(i)];
     cp->saw[static_cast<std::size_t>(i)] = static_cast<int>(r.State());
     cp->at[static_cast<std::size_t>(i)] = ++cp->clock;
+    cp->ran_on[static_cast<std::size_t>(i)] = yaclib_std::this_thread::get_id();
     if (r) {
       return R{Pay{std::as_const(r).Value().Read() + 1}};
     }
@@ -106,6 +112,53 @@ auto AttachStep(H&& h, yaclib::IExecutor& e, PCtx& cx, int i, StepRec st) {
     return std::move(h).Then(e, on_result);
   }
   return std::move(h).Then(on_result);
+}
+
+// first step on a SharedFutureOn (RunShared): callbacks take the shared value / Result by const reference; Then(f) and
+// Subscribe(f) without an executor inherit the one of RunShared
+template <typename SH>
+yaclib::FutureOn<Pay, TErr> AttachShared(const SH& sh, yaclib::IExecutor& e, PCtx& cx, int i, StepRec st) {
+  vf::Guard g;
+  PCtx* cp = &cx;
+  auto on_value = [cp, i, g](const Pay& v) {
+    g.Use();
+    ++cp->calls[static_cast<std::size_t>(i)];
+    cp->saw[static_cast<std::size_t>(i)] = 0;
+    cp->at[static_cast<std::size_t>(i)] = ++cp->clock;
+    cp->ran_on[static_cast<std::size_t>(i)] = yaclib_std::this_thread::get_id();
+    return Pay{v.Read() + 1};
+  };
+  auto on_result = [cp, i, g](const R& r) {
+    g.Use();
+    ++cp->calls[static_cast<std::size_t>(i)];
+    cp->saw[static_cast<std::size_t>(i)] = static_cast<int>(r.State());
+    cp->at[static_cast<std::size_t>(i)] = ++cp->clock;
+    cp->ran_on[static_cast<std::size_t>(i)] = yaclib_std::this_thread::get_id();
+    if (r) {
+      return R{Pay{r.Value().Read() + 1}};
+    }
+    if (r.State() == yaclib::ResultState::Error) {
+      cp->saw_code[static_cast<std::size_t>(i)] = r.Error().code;
+      return R{r.Error()};
+    }
+    return R{r.Exception()};
+  };
+  if (st.sig == 0) {
+    if (st.mode == 0) {
+      return sh.ThenInline(on_value);
+    }
+    if (st.mode == 1) {
+      return sh.Then(e, on_value);
+    }
+    return sh.Then(on_value);
+  }
+  if (st.mode == 0) {
+    return sh.ThenInline(on_result);
+  }
+  if (st.mode == 1) {
+    return sh.Then(e, on_result);
+  }
+  return sh.Then(on_result);
 }
 
 struct Decoded {
@@ -200,6 +253,7 @@ class RealPipe final : public vf::Family {
     cx.saw.assign(n, -1);
     cx.saw_code.assign(n, 0);
     cx.at.assign(n, 0);
+    cx.ran_on.assign(n, 0);
     vf::TS().Reset();
     long live_delta = 0;
     int final_state = -1, final_val = 0, final_code = 0;
@@ -226,21 +280,39 @@ class RealPipe final : public vf::Family {
           }
         }
         bool chain_done = false;
+        cx.main_id = yaclib_std::this_thread::get_id();
         yaclib_std::thread producer;
         yaclib::FutureOn<Pay, TErr> h;
         if (d.src == kContract) {
           auto [f, p] = yaclib::MakeContractOn<Pay, TErr>(*e);
           h = std::move(f);
-          producer = yaclib_std::thread([p = std::move(p)]() mutable {
+          producer = yaclib_std::thread([&cx, p = std::move(p)]() mutable {
+            cx.producer_id = yaclib_std::this_thread::get_id();
             vf::Point();
             std::move(p).Set(Pay{1});
           });
         } else if (d.src == kRun) {
           h = yaclib::Run<TErr>(*e, [] { return Pay{1}; });
-        } else {
+        } else if (d.src == kSchedule) {
           h = yaclib::Schedule<TErr>(*e, [] { return Pay{1}; }).ToFuture(*e);
         }
-        for (std::size_t i = 0; i < n; ++i) {
+        std::size_t first = 0;
+        auto shared_src = d.src == kRunShared ? yaclib::RunShared<TErr>(*e, [] { return Pay{1}; })
+                                              : yaclib::SharedFutureOn<Pay, TErr>{};
+        if (d.src == kRunShared) {
+          vf::Point();
+          h = AttachShared(shared_src, *e, cx, 0, d.steps[0]);
+          first = 1;
+          vf::Guard sg;
+          shared_src.Subscribe([&cx, sg](const R& r) {  // inherits the executor of RunShared, fires exactly once
+            sg.Use();
+            ++cx.subscribed_calls;
+            if (r.State() == yaclib::ResultState::Exception || (r.State() == yaclib::ResultState::Error && r.Error().code != -1)) {
+              cx.Err("Subscribe(f) on the RunShared source saw a failure other than StopError");
+            }
+          });
+        }
+        for (std::size_t i = first; i < n; ++i) {
           vf::Point();
           h = AttachStep(std::move(h), *e, cx, static_cast<int>(i), d.steps[i]);
         }
@@ -323,7 +395,11 @@ class RealPipe final : public vf::Family {
             v.Fail("continuations ran out of pipeline order");
           }
           last_at = cx.at[i];
-          if (st.sig == 0 && failed) {
+          if (st.mode != 0 && saw == 0 && (cx.ran_on[i] == cx.main_id || (cx.producer_id != 0 && cx.ran_on[i] == cx.producer_id))) {
+            // a step attached with Then(e, f) / Then(f) that ran with a value was accepted by its executor: it runs on a
+            // worker (or the draining fiber), never inline in the attaching or the fulfilling fiber
+            v.Fail("a Then(e, f) / Then(f) step ran inline in the attaching / fulfilling fiber instead of on its executor");
+          } else if (st.sig == 0 && failed) {
             v.Fail("a value callback ran after the chain had already failed (StopError must skip it)");
           } else if (st.sig == 1) {
             if (saw == 2 && cx.saw_code[i] != -1) {
@@ -355,6 +431,9 @@ class RealPipe final : public vf::Family {
           v.Fail("every step ran with a value but the final Result is not the expected value");
         }
       }
+      if (v.ok && d.src == kRunShared && cx.subscribed_calls != 1) {
+        v.Fail("Subscribe(f) on the RunShared source did not fire exactly once");
+      }
       if (v.ok && failed && !cx.stop_issued) {
         v.Fail("a step saw StopError although no executor was ever stopped");
       }
@@ -374,6 +453,7 @@ class RealPipe final : public vf::Family {
     v.nontrivial = mixed || stop_before_done;
     v.hash = vf::Mix64(c.ProgHash(), ex.trace_hash);
     v.tags.push_back(kStackName[d.stack]);
+    v.tags.push_back(vf::Intern(std::string("source:") + kSrcName[d.src]));
     if (mixed) {
       v.tags.push_back("refused-mid-chain");
     }
